@@ -89,6 +89,11 @@ type Interp struct {
 	MaxDepth  int
 	// TraceStores enables the Stores log (off by default: cost).
 	TraceStores bool
+	// UnrollLoops lets functions with loops be interpreted along their single
+	// feasible path, provided every branch inside is decided (counted loops with
+	// constant bounds); an undecided branch makes the run imprecise.
+	UnrollLoops bool
+	MaxPathSteps int
 	// TraceArith records possibly lossy narrowing conversions and possibly
 	// overflowing multiplications/additions as events.
 	TraceArith bool
@@ -287,6 +292,9 @@ func (ip *Interp) Call(fn *ssa.Function, args []Val, bind []Val, st *State) (res
 	}
 	order, ok := topoOrder(fn)
 	if !ok {
+		if ip.UnrollLoops {
+			return ip.callPath(fn, args, bind, st)
+		}
 		ip.Imprecise("loop in " + fn.String())
 		return ip.topOf(fn.Signature.Results(), "loop"), st
 	}
@@ -455,6 +463,121 @@ func (ip *Interp) Call(fn *ssa.Function, args []Val, bind []Val, st *State) (res
 		ip.gate, ip.gateExact, ip.gateSwap = "", false, false
 	}
 	return res, &State{Heap: outS.Heap, refine: st.refine}
+}
+
+// callPath interprets a function containing loops along its unique feasible path.
+func (ip *Interp) callPath(fn *ssa.Function, args []Val, bind []Val, st *State) (Val, *State) {
+	if ip.Hooks.Enter != nil {
+		ip.Hooks.Enter(ip, fn, args)
+	}
+	ip.stack = append(ip.stack, fn)
+	savedPos := ip.curPos
+	act := &activation{fn: fn, env: map[ssa.Value]Val{}, loads: map[ssa.Value]loadOrigin{}}
+	ip.acts = append(ip.acts, act)
+	defer func() {
+		ip.stack = ip.stack[:len(ip.stack)-1]
+		ip.acts = ip.acts[:len(ip.acts)-1]
+		ip.curPos = savedPos
+	}()
+	for i, p := range fn.Params {
+		if i < len(args) {
+			act.env[p] = args[i]
+		} else {
+			act.env[p] = ip.topOf(p.Type(), "missing-arg")
+		}
+	}
+	for i, fv := range fn.FreeVars {
+		if i < len(bind) {
+			act.env[fv] = bind[i]
+		}
+	}
+	cur := &State{Heap: st.Heap}
+	limit := ip.MaxPathSteps
+	if limit == 0 {
+		limit = 2_000_000
+	}
+	var prev *ssa.BasicBlock
+	b := fn.Blocks[0]
+	for {
+		ip.LiveBlock[b] = true
+		// phis take the value of the edge we came along (evaluated simultaneously)
+		var phiVals []Val
+		var phis []*ssa.Phi
+		for _, instr := range b.Instrs {
+			phi, ok := instr.(*ssa.Phi)
+			if !ok {
+				break
+			}
+			idx := predIndex(b, prev)
+			if idx < 0 {
+				ip.Imprecise("phi without predecessor in " + fn.String())
+				return ip.topOf(fn.Signature.Results(), "loop"), st
+			}
+			phis = append(phis, phi)
+			phiVals = append(phiVals, ip.get(act, cur, phi.Edges[idx]))
+		}
+		for i, phi := range phis {
+			act.env[phi] = phiVals[i]
+		}
+		var next *ssa.BasicBlock
+		for _, instr := range b.Instrs {
+			if _, ok := instr.(*ssa.Phi); ok {
+				continue
+			}
+			ip.steps++
+			if ip.steps > limit {
+				ip.Imprecise("path step limit exceeded in " + fn.String())
+				return ip.topOf(fn.Signature.Results(), "loop"), st
+			}
+			if p := instr.Pos(); p.IsValid() {
+				ip.curPos = p
+			}
+			switch t := instr.(type) {
+			case *ssa.If:
+				cb, _ := ip.get(act, cur, t.Cond).(*Bool)
+				switch {
+				case cb != nil && cb.K == TriT:
+					next = b.Succs[0]
+				case cb != nil && cb.K == TriF:
+					next = b.Succs[1]
+				default:
+					ip.Imprecise("undecided branch inside a loop of " + fn.String())
+					return ip.topOf(fn.Signature.Results(), "loop"), st
+				}
+			case *ssa.Jump:
+				next = b.Succs[0]
+			case *ssa.Return:
+				var rv Val
+				switch len(t.Results) {
+				case 0:
+				case 1:
+					rv = ip.get(act, cur, t.Results[0])
+				default:
+					tp := &Tuple{}
+					for _, r := range t.Results {
+						tp.E = append(tp.E, ip.get(act, cur, r))
+					}
+					rv = tp
+				}
+				return rv, &State{Heap: cur.Heap, refine: st.refine}
+			case *ssa.Panic:
+				ip.event(Event{Kind: "panic", Args: []Val{ip.get(act, cur, t.X)}, Instr: t})
+				return nil, nil
+			default:
+				if !ip.step(act, cur, instr) {
+					return nil, nil
+				}
+			}
+			if next != nil {
+				break
+			}
+		}
+		if next == nil {
+			ip.Imprecise("block without terminator in " + fn.String())
+			return ip.topOf(fn.Signature.Results(), "loop"), st
+		}
+		prev, b = b, next
+	}
 }
 
 func predIndex(b, pred *ssa.BasicBlock) int {
